@@ -123,6 +123,7 @@ App(p, h) ==
       [] h.out.set /\ h.par.entry = "lab" -> (p = "C13" /\ h.par.bound_ms = 0) \/ (p = "C08" /\ h.par.bound_ms > 0)
       [] h.out.set /\ h.par.entry = "doc" -> p \in {"C16", "C17", "C18"} \/ (p = "C08" /\ h.par.docin.bound_us > 0)
       [] h.out.set /\ h.par.entry = "docstress" -> p = "C16"
+      [] h.out.set /\ h.par.entry = "pubfetch" -> p = "C15"
       [] h.out.set /\ h.par.entry = "cache" -> p = "C18"
       [] h.out.set /\ h.par.entry = "pubip" -> p = "C18" \/ p = "C08"
       [] h.out.set /\ h.par.entry = "alloc" -> p = "C11"
@@ -149,6 +150,7 @@ Holds(p, h) ==
                                    [] p = "C18" -> C18_json(h.par.docin, h.out) /\ C18_reprobe(h.par.docin, h.got)
                                    [] p = "C08" -> C08_doc(h.par.docin, h.out) [] OTHER -> TRUE)
       [] h.par.entry = "docstress" -> C16_ids(h.got)
+      [] h.par.entry = "pubfetch" -> C15_fetch(h.got)
       [] h.par.entry = "cache" -> C18_cache(h.par.ttl_ms, h.got)
       [] h.par.entry = "pubip" -> (CASE p = "C18" -> (~h.par.expect.stalls => C18_pub(h.par.expect, h.got, h.out))
                                      [] p = "C08" -> C08_pub(h.par.expect, h.got, h.out) [] OTHER -> TRUE)
